@@ -14,7 +14,7 @@ META = {
                    "(2) one conversion: a Distance is turned into a U256 only inside convert_distance_to_u256, and every U256 range "
                    "comparison against a distance takes its operand from it; (3) as_bytes and to_record_key use the same byte source per "
                    "NetworkAddress variant, so a typed address and its raw record key hash the same bytes; (4) polarity: in-range filters "
-                   "use <=, sorts are ascending (a before b) and take(n) follows the sort. Not decided: that the integer equals "
+                   "use <=, sorts are ascending (a before b) and take(n) follows the sort. Also: reference point — in each closeness-deciding function (get_replicate_candidates, get_peers_in_range, the record store's distance bookkeeping, the replication fetcher, calculate_get_closest_peers) every distance is measured from that function's own target / self address, also through closure captures. Not decided: that the integer equals "
                    "SHA-256-XOR big-endian (libp2p internals and the Debug-string conversion are value-level).",
     "not_decided": ["the numeric value of the distance (libp2p KBucketKey hashing, Distance Debug format parsed by convert_distance_to_u256)",
                     "sort_peers_by_key compares CLOSE_GROUP_SIZE (not expected_entries) with peers.len(): the statement is ambiguous, not armed"],
